@@ -180,11 +180,16 @@ int yr_modules_unload_all(YR_SCAN_CONTEXT* context)
        module->name != NULL && module->unload != NULL;
        module++)
   {
-    YR_OBJECT* module_structure = (YR_OBJECT*) yr_hash_table_remove(
+    YR_OBJECT* module_structure = (YR_OBJECT*) yr_hash_table_lookup(
         context->objects_table, module->name, NULL);
 
-    if (module_structure != NULL)
+    // The objects table is shared with external variables, which can be named
+    // like a module that is not imported. Those are not structures and must
+    // survive the scan.
+    if (module_structure != NULL &&
+        module_structure->type == OBJECT_TYPE_STRUCTURE)
     {
+      yr_hash_table_remove(context->objects_table, module->name, NULL);
       module->unload(module_structure);
       yr_object_destroy(module_structure);
     }
